@@ -19,6 +19,7 @@ RL = 'compiler/dialect_libraries/recursion_library.py'
 PA = 'parser_py/parse.py'
 DI = 'compiler/dialects.py'
 INF = 'type_inference/research/infer.py'
+CPP = 'parser_cpp/logica_parse.cpp'
 
 # ------------------------------------------------------------------ C14
 mutant('c14-rep-gt', 'C14', CL,
@@ -102,6 +103,10 @@ mutant('c13-toomuch-sticky', 'C13', PA,
        "  else:\n    # The incantation works for the program that contains it, not for\n    # whatever is parsed by the same process afterwards.\n    TOO_MUCH = 'too much'\n",
        "",
        'experimental syntax switch never switched off (the repaired defect)')
+mutant('c13-toomuch-sticky-cpp', 'C13', CPP,
+       "  } else {\n    // The incantation works for the program that contains it, not for\n    // whatever is parsed by the same process afterwards.\n    TOO_MUCH = \"too much\";\n  }\n",
+       "  }\n",
+       'C++ parser: experimental syntax switch never switched off (the repaired defect)')
 mutant('c13-prefix-order', 'C13', PA,
        "    for p in sorted(DefinedPredicates(rules) | MadePredicates(rules),\n                    key=lambda p: (-len(p), p)):\n",
        "    for p in DefinedPredicates(rules) | MadePredicates(rules):\n",
